@@ -65,6 +65,7 @@ fn main() {
             let idx = j.get("idx").and_then(|x| x.as_u64()).expect("idx");
             let chk = checks::get(&id).expect("unknown check");
             mon::install_panic_hook();
+            cosetmon::capi::probe_orders();
             let id_static: &'static str = Box::leak(id.clone().into_boxed_str());
             let mut ctx = mon::Ctx::new(id_static, tier, seed, budget);
             ctx.replaying = true;
@@ -80,6 +81,27 @@ fn main() {
                     println!("VIOLATION property={} sig={} :: {}", id, v.sig, v.detail);
                 }
                 std::process::exit(1);
+            }
+        }
+        "explain" => {
+            // cosetmon explain <Type> <hex>: independent parse, model verdict, crate result
+            use cosetmon::model::{self, Ty};
+            mon::install_panic_hook();
+            let tyname = args.get(2).cloned().unwrap_or_default();
+            let bytes = rcbor::unhex(&args.get(3).cloned().unwrap_or_default()).expect("hex");
+            let mut all: Vec<Ty> = model::STRUCT_TYPES.to_vec();
+            all.extend(model::LABEL_TYPES);
+            let ty = all.into_iter().find(|t| t.name() == tyname).expect("unknown type name");
+            println!("rcbor: {:?}", rcbor::decode_exact(&bytes));
+            println!("model: {:?}", model::decode_bytes(ty, &bytes));
+            let r = cosetmon::capi::from_slice(ty, &bytes);
+            match &r {
+                Ok(v) => {
+                    let mut n = cosetmon::capi::Notes(vec![]);
+                    println!("coset: Ok, view = {:?} notes={:?}", cosetmon::capi::view(v, &mut n), n.0);
+                    println!("to_vec: {:?}", cosetmon::capi::to_vec(v.clone()).map(|b| rcbor::hex(&b)));
+                }
+                Err(e) => println!("coset: Err({})", e.name()),
             }
         }
         other => {
